@@ -643,7 +643,15 @@ def _judge(res, scenario, order, threads, alone, alone_info, info, got, k):
         _account(res, rec, k)
         if pool_path:
             if j not in executed:
-                raise HarnessError(f"task {j} was never executed by SimPool although backtest.py waited for it")
+                # the pool was terminated (left the with-block) before this task's completion had been waited for
+                res.count("probe:task_dropped_at_terminate")
+                res.event("mgr", name, "pool_task_dropped", None)
+                if rec is not None:
+                    raise HarnessError(f"task {j} left a result although SimPool never executed it")
+                res.violate(ORACLE, "pool_task_dropped:no_result_under_manager", strategy=name, task=j,
+                            note="Pool.__exit__ terminates the pool; the task had not finished at the moment the manager stopped waiting")
+                any_diff = True
+                continue
             w, kth = executed[j]
             path = "pool_fresh_worker" if kth == 0 else "pool_reused_worker"
             if rec is not None and rec["pid"] != pids[w]:
@@ -788,7 +796,7 @@ RULE = (
     "before it in the same process, whether that neighbour left positions open, whether it was a noisy neighbour, "
     "whether the strategy itself is noisy, verdict) in which a neighbour really ran before the strategy in the same process"
 )
-BUDGET = {"quick": {"runs": 1500, "wall": 55}, "thorough": {"runs": 40000, "wall": 1100}}
+BUDGET = {"quick": {"runs": 900, "wall": 55}, "thorough": {"runs": 16000, "wall": 1100}}
 LEVEL = "exploration"
 TECHNIQUE = (
     "deterministic simulation with a seeded scheduler: real BacktestManager/Actuator code, real forked workers, the "
